@@ -460,6 +460,8 @@ def seeded():
         meta = json.load(open(mf, encoding='utf-8'))
         if meta.get('superseded'):
             continue     # no longer a breaking change on the current tree (a fix made it harmless)
+        if meta.get('not_caught'):
+            continue     # a recorded miss (the reason is in meta.json and in DESIGN.md)
         # (a change may break a clause which belongs to the check of another property: 'checked_by')
         res.append((meta.get('checked_by', meta['property']), 'seeded/' + meta['name'],
                     os.path.join(os.path.dirname(mf), 'patch.diff')))
